@@ -1315,7 +1315,7 @@ class t2data(object):
                 outfile.write_values([nlayers], 'layer1')
                 nlines = int(ceil(nlayers / 8.))
                 for i in range(nlines):
-                    i1, i2 = i * 8, min((i + 1) * 8, nrad)
+                    i1, i2 = i * 8, min((i + 1) * 8, nlayers)
                     vals = subsection['layer'][i1: i2]
                     if len(vals) < 8: vals += [None] * (8 - len(vals))
                     outfile.write_values(vals, 'layer2')
